@@ -661,3 +661,103 @@ def read_restrict(inp, W):
                 import shutil; shutil.rmtree(d, ignore_errors=True)
         return {"full": full, "part": part}
     raise ValueError(kind)
+
+# ---------------------------------------------------------------------------- C18 GeoJSON
+
+def _geo_module(W):
+    return __import__("dataiter.geojson", fromlist=["x"])
+
+@op
+def geo_read(inp, W):
+    import json, os, shutil, tempfile
+    di = W.di
+    coll = inp["collection"]
+    kw = {}
+    if inp.get("columns") is not None: kw["columns"] = inp["columns"]
+    if W.sym:
+        from . import stubs
+        mod = _geo_module(W)
+        with stubs.patched(mod, "json", stubs.JsonStub(mod.json, coll)), stubs.patched(mod.util, "xopen", lambda *a, **k: stubs.StubFile()):
+            out = di.GeoJSON.read("x.geojson", **kw)
+    else:
+        d = tempfile.mkdtemp(prefix="vf_geo_")
+        try:
+            p = os.path.join(d, "x.geojson")
+            with open(p, "w", encoding="utf-8") as f: json.dump(coll, f, ensure_ascii=False)
+            out = di.GeoJSON.read(p, **kw)
+        finally:
+            shutil.rmtree(d, ignore_errors=True)
+    return {"out": out}
+
+@op
+def geo_write(inp, W):
+    """writes the GeoJSON object; returns what a JSON parser makes of the written text"""
+    import json, os, shutil, tempfile
+    di = W.di
+    data = inp["data"]
+    for k, v in inp["metadata"]:
+        data.metadata[k] = v
+    kw = {}
+    if inp.get("indent") is not None: kw["indent"] = inp["indent"]
+    if W.sym:
+        from . import stubs, symx
+        mod = _geo_module(W)
+        js = stubs.JsonStub(mod.json, None)
+        f = stubs.StubFile(mode="w")
+        raw = []
+        def hook(s, spec):
+            raw.append(s)
+            return f"{len(raw) - 1}"
+        symx.FORMAT_HOOK[0] = hook
+        try:
+            with stubs.patched(mod, "json", js), stubs.patched(mod.util, "xopen", lambda *a, **k: f), \
+                 stubs.patched(mod.util, "makedirs_for_file", lambda p: None):
+                data.write("x.geojson", **kw)
+        finally:
+            symx.FORMAT_HOOK[0] = None
+        text = "".join(f.chunks)
+        # template -> JSON: blobs are valid JSON by the json.dumps contract (placeholder strings, substituted back
+        # after parsing); raw-inserted symbolic names are replaced by a harmless literal and reported separately
+        import re
+        for i in range(len(js.dumped)):
+            text = text.replace(f"<json#{i}>", json.dumps(f"__blob_{i}__"))
+        text = re.sub("(\\d+)", lambda m: f"__raw_{m.group(1)}__", text)
+        try:
+            parsed = json.loads(text)
+        except ValueError as e:
+            return {"parsed": None, "error": str(e), "raw_names": raw}
+        def back(v):
+            if type(v) is str:
+                m = re.fullmatch("__blob_(\\d+)__", v)
+                if m: return js.dumped[int(m.group(1))][0]
+                return v
+            if isinstance(v, list): return [back(x) for x in v]
+            if isinstance(v, dict): return {back(k): back(x) for k, x in v.items()}
+            return v
+        def keyback(v):
+            if isinstance(v, dict):
+                out = {}
+                for k, x in v.items():
+                    m = re.fullmatch("__raw_(\\d+)__", k) if type(k) is str else None
+                    out[raw[int(m.group(1))] if m else k] = keyback(x)
+                return out
+            if isinstance(v, list): return [keyback(x) for x in v]
+            return v
+        return {"parsed": _plain(keyback(back(parsed))), "error": None, "raw_names": raw}
+    d = tempfile.mkdtemp(prefix="vf_geo_")
+    try:
+        p = os.path.join(d, "x.geojson")
+        data.write(p, **kw)
+        text = open(p, encoding="utf-8").read()
+        try:
+            return {"parsed": json.loads(text), "error": None, "raw_names": []}
+        except ValueError as e:
+            return {"parsed": None, "error": str(e), "raw_names": []}
+    finally:
+        shutil.rmtree(d, ignore_errors=True)
+
+def _plain(v):
+    """AttributeDict / ListOfDicts -> plain dict / list"""
+    if isinstance(v, dict): return {k: _plain(x) for k, x in v.items()}
+    if isinstance(v, (list, tuple)): return [_plain(x) for x in v]
+    return v
